@@ -86,33 +86,41 @@ structure AutoRes where
 def innerLoop (env : Env) (target outSum nOut : Nat) (chgAddr : String) :
     Nat → Nat → Except Err (List Coin × Option (String × Nat) × Nat)
   | 0, _ => .error .fuel
-  | fuel + 1, adj => do
-    let want ← addAmt target outSum
-    let wantAdj ← addAmt want adj
-    let f ← findEligible env wantAdj
-    if f.found < wantAdj then
-      throw (if f.overfull then .overfull else .insufficient)
-    let change := f.found - want
-    if change ≠ 0 then
-      if change < minRelay then
-        innerLoop env target outSum nOut chgAddr fuel minRelay      -- adj = MinRelayTxFee; continue
-      else
-        let a := if chgAddr.length > 0 then chgAddr else f.first
-        pure (f.sel, some (a, change), nOut + 1)
-    else pure (f.sel, none, nOut)
+  | fuel + 1, adj =>
+    match addAmt target outSum with
+    | .error e => .error e
+    | .ok want =>
+      match addAmt want adj with
+      | .error e => .error e
+      | .ok wantAdj =>
+        match findEligible env wantAdj with
+        | .error e => .error e
+        | .ok f =>
+          if f.found < wantAdj then .error (if f.overfull then .overfull else .insufficient)
+          else
+            let change := f.found - want
+            if change ≠ 0 then
+              if change < minRelay then
+                innerLoop env target outSum nOut chgAddr fuel minRelay      -- adj = MinRelayTxFee; continue
+              else
+                .ok (f.sel, some (if chgAddr.length > 0 then chgAddr else f.first, change), nOut + 1)
+            else .ok (f.sel, none, nOut)
 
 /-- the outer `for`: estimate the signed size, raise the target fee until it covers the relay fee -/
 def outerLoop (env : Env) (outSum nOut payloadLen : Nat) (chgAddr : String) :
     Nat → Nat → Except Err AutoRes
   | 0, _ => .error .fuel
-  | fuel + 1, target => do
-    let (sel, chg, txOutLen) ← innerLoop env target outSum nOut chgAddr 2 0
-    -- estimateSignedSize looks every selected coin up again: "estimate signedSize failed" → ErrInvalidParameter
-    if sel.any (fun c => !env.resolvable c) then throw .param
-    let size := estSize sel.length txOutLen + payloadLen
-    let required := relayFee size
-    if target ≥ required then pure ⟨sel, chg, target⟩
-    else outerLoop env outSum nOut payloadLen chgAddr fuel required
+  | fuel + 1, target =>
+    match innerLoop env target outSum nOut chgAddr 2 0 with
+    | .error e => .error e
+    | .ok (sel, chg, txOutLen) =>
+      -- estimateSignedSize looks every selected coin up again: "estimate signedSize failed" → ErrInvalidParameter
+      if sel.any (fun c => !env.resolvable c) then .error .param
+      else
+        let size := estSize sel.length txOutLen + payloadLen
+        let required := relayFee size
+        if target ≥ required then .ok ⟨sel, chg, target⟩
+        else outerLoop env outSum nOut payloadLen chgAddr fuel required
 
 /-- the largest size estimateSignedSize can report for a selection of the selector (k coins and the guard) -/
 def sizeBound (k nOut payloadLen : Nat) : Nat := estSize (k + 1) (nOut + 1) + payloadLen
@@ -123,12 +131,17 @@ def outerFuel (k nOut payloadLen : Nat) : Nat := relayFee (sizeBound k nOut payl
 
 /-- autoConstructTxInAndChangeTxOut(msgTx, lockTime, addrs, userTxFee, changeAddr) where msgTx has
     the requested outputs `outs` (amounts) and a payload of `payloadLen` bytes -/
+def sumOuts (outs : List Nat) : Except Err Nat :=
+  outs.foldlM (fun acc v => if acc + v > maxAmount then .error Err.amount else .ok (acc + v)) 0
+
 def autoConstruct (env : Env) (outs : List Nat) (payloadLen userFee : Nat) (chgAddr : String) :
-    Except Err AutoRes := do
+    Except Err AutoRes :=
   let target := if userFee ≠ 0 then userFee else minRelay
   -- outAmounts: AddInt per output, ErrInvalidAmount on overflow
-  let outSum ← outs.foldlM (fun acc v => if acc + v > maxAmount then .error Err.amount else .ok (acc + v)) 0
-  outerLoop env outSum outs.length payloadLen chgAddr (outerFuel env.k outs.length payloadLen) target
+  match sumOuts outs with
+  | .error e => .error e
+  | .ok outSum =>
+    outerLoop env outSum outs.length payloadLen chgAddr (outerFuel env.k outs.length payloadLen) target
 
 -- ------------------------------------------------------------------ fee subtraction (manual path)
 
